@@ -7,6 +7,9 @@ package srv
 
 import (
 	"bufio"
+	"bytes"
+	"compress/gzip"
+	"compress/zlib"
 	"context"
 	"fmt"
 	"io"
@@ -31,6 +34,10 @@ type APIRequest struct {
 	RawQuery string `json:"query"` // request-URI after the first '?', exactly as sent
 	HasQuery bool   `json:"has_query"`
 	Budget   bool   `json:"over_budget,omitempty"`
+	// AcceptEncoding is the request's Accept-Encoding header ("" = none sent); Coding is the
+	// content coding the server answered with ("" = identity).
+	AcceptEncoding string `json:"accept_encoding,omitempty"`
+	Coding         string `json:"content_coding,omitempty"`
 }
 
 // API is the fake API server.
@@ -46,6 +53,7 @@ type API struct {
 	hangup  string // transport-level misbehaviour instead of an answer (see Hangup)
 	meta    Meta   // response metadata besides the status (see Metadata)
 	stream  func(w io.Writer) error
+	gate    chan struct{}
 	served  int // requests answered since the last Respond
 	budget  int
 	clients []*http.Transport
@@ -65,14 +73,29 @@ func (a *API) handle(w http.ResponseWriter, r *http.Request) {
 	if i := strings.IndexByte(uri, '?'); i >= 0 {
 		rq.RawPath, rq.RawQuery, rq.HasQuery = uri[:i], uri[i+1:], true
 	}
+	rq.AcceptEncoding = strings.Join(r.Header.Values("Accept-Encoding"), ", ")
 	a.mu.Lock()
 	a.served++
 	over := a.served > a.budget
 	rq.Budget = over
-	a.reqs = append(a.reqs, rq)
 	status, ctype, body, hangup := a.status, a.ctype, a.body, a.hangup
-	meta, stream := a.meta, a.stream
+	meta, stream, gate := a.meta, a.stream, a.gate
+	coding := ""
+	if hangup == "" && !over && stream == nil && !meta.NoBody && len(body) > 0 && status != http.StatusNoContent {
+		coding = chooseCoding(meta.Coding, rq.AcceptEncoding)
+	}
+	rq.Coding = coding
+	a.reqs = append(a.reqs, rq)
 	a.mu.Unlock()
+	if gate != nil {
+		// hold the request (it is logged already) until the harness opens the gate or the
+		// client goes away
+		select {
+		case <-gate:
+		case <-r.Context().Done():
+			return
+		}
+	}
 	if hangup != "" && !over {
 		a.hangUp(w, hangup, status, ctype, body)
 		return
@@ -102,6 +125,13 @@ func (a *API) handle(w http.ResponseWriter, r *http.Request) {
 		body = nil
 		w.Header().Set("Content-Length", "0")
 	}
+	if meta.Coding != "" {
+		w.Header().Add("Vary", "Accept-Encoding")
+	}
+	if coding != "" {
+		body = encodeBody(coding, body)
+		w.Header().Set("Content-Encoding", coding)
+	}
 	w.WriteHeader(status)
 	if len(body) > 0 && status != http.StatusNoContent && status != http.StatusNotModified {
 		if meta.Chunked {
@@ -122,6 +152,81 @@ type Meta struct {
 	Header  http.Header
 	Chunked bool
 	NoBody  bool
+	// Coding is the server's content-coding policy: "" never compresses; "gzip-first" and
+	// "deflate-first" answer with the first coding of their preference list (gzip, deflate /
+	// deflate, gzip) that the request's Accept-Encoding offers, identity when it offers
+	// neither or is absent. "deflate" is the zlib format (RFC 9110 section 8.4.1.2).
+	Coding string
+}
+
+// chooseCoding picks the content coding for a request under a policy.
+func chooseCoding(policy, acceptEncoding string) string {
+	if policy == "" || acceptEncoding == "" {
+		return ""
+	}
+	offered := map[string]bool{}
+	for _, tok := range strings.Split(acceptEncoding, ",") {
+		name, params, _ := strings.Cut(strings.TrimSpace(tok), ";")
+		name = strings.ToLower(strings.TrimSpace(name))
+		q := strings.ReplaceAll(strings.ToLower(params), " ", "")
+		if name == "" || q == "q=0" || q == "q=0.0" || q == "q=0.00" || q == "q=0.000" {
+			continue
+		}
+		offered[name] = true
+	}
+	prefs := []string{"gzip", "deflate"}
+	if policy == "deflate-first" {
+		prefs = []string{"deflate", "gzip"}
+	}
+	for _, c := range prefs {
+		if offered[c] || offered["*"] {
+			return c
+		}
+	}
+	return ""
+}
+
+func encodeBody(coding string, body []byte) []byte {
+	var buf bytes.Buffer
+	switch coding {
+	case "gzip":
+		zw := gzip.NewWriter(&buf)
+		zw.Write(body)
+		zw.Close()
+	case "deflate":
+		zw := zlib.NewWriter(&buf)
+		zw.Write(body)
+		zw.Close()
+	default:
+		return body
+	}
+	return buf.Bytes()
+}
+
+// Gate makes the server hold every request (after logging it) until Release is called; the
+// harness uses it to keep concurrent calls in flight at the same time. Release opens the gate
+// and removes it.
+func (a *API) Gate() {
+	a.mu.Lock()
+	a.gate = make(chan struct{})
+	a.mu.Unlock()
+}
+
+// Release lets all held requests (and all later ones) through.
+func (a *API) Release() {
+	a.mu.Lock()
+	if a.gate != nil {
+		close(a.gate)
+		a.gate = nil
+	}
+	a.mu.Unlock()
+}
+
+// Arrived is the number of requests logged since the previous Take.
+func (a *API) Arrived() int {
+	a.mu.Lock()
+	defer a.mu.Unlock()
+	return len(a.reqs)
 }
 
 // Metadata sets the response metadata of the following answers (until the next Respond).
@@ -220,6 +325,12 @@ func (a *API) Client() *http.Client { return a.ClientWith(nil, false) }
 // itself when a *reused* connection dies before the first response byte; without reuse every
 // request on the wire is one the library asked for).
 func (a *API) ClientWith(ft *FaultTripper, noKeepAlive bool) *http.Client {
+	return a.ClientOpts(ft, noKeepAlive, false)
+}
+
+// ClientOpts is ClientWith plus the option to switch the transport's transparent gzip off
+// (Transport.DisableCompression: no Accept-Encoding is added to requests).
+func (a *API) ClientOpts(ft *FaultTripper, noKeepAlive, noCompression bool) *http.Client {
 	addr := a.HostPort()
 	dial := func(ctx context.Context, network, _ string) (net.Conn, error) {
 		var d net.Dialer
@@ -227,7 +338,7 @@ func (a *API) ClientWith(ft *FaultTripper, noKeepAlive bool) *http.Client {
 	}
 	// DialTLSContext hands out the same plain connection ("already past the handshake"), so a
 	// base URL with the https scheme reaches the server as well.
-	tr := &http.Transport{DialContext: dial, DialTLSContext: dial, MaxIdleConnsPerHost: 4, DisableKeepAlives: noKeepAlive}
+	tr := &http.Transport{DialContext: dial, DialTLSContext: dial, MaxIdleConnsPerHost: 16, DisableKeepAlives: noKeepAlive, DisableCompression: noCompression}
 	a.mu.Lock()
 	a.clients = append(a.clients, tr)
 	a.mu.Unlock()
